@@ -32,17 +32,32 @@ class Harness:
         self.bins = {}
         self.build_s = 0.0
 
+    ACCESSORS = ["verif_acc_eps", "verif_acc_sigma", "verif_acc_dof", "verif_acc_counts"]
+
     def build(self, profile="dev"):
         if profile in self.bins:
             return self.bins[profile]
-        env = cargo_env({"RUSTFLAGS": "--cfg verif_sym -Awarnings", "CARGO_TARGET_DIR": TARGET_CACHE})
         cmd = ["cargo", "build", "--offline", "--bin", "rharness"]
         if self.features:
             cmd += ["--features", ",".join(self.features)]
         if profile == "release":
             cmd.append("--release")
-        rc, out, dt = run(cmd, cwd=self.crate, env=env, timeout=1800)
-        self.build_s += dt
+        # optional accessors of private fields: if the overlay does not compile with one of them (a field was
+        # renamed / removed) it is dropped and the obligations that need it are skipped
+        if not hasattr(self, "accessors"):
+            self.accessors = list(self.ACCESSORS)
+        attempts = [list(self.accessors)] + [[a for a in self.accessors if a != drop] for drop in self.accessors] + [[]]
+        rc, out = 1, ""
+        for acc in attempts:
+            flags = "--cfg verif_sym -Awarnings " + " ".join(f"--cfg {a}" for a in acc)
+            env = cargo_env({"RUSTFLAGS": flags.strip(), "CARGO_TARGET_DIR": TARGET_CACHE})
+            rc, out, dt = run(cmd, cwd=self.crate, env=env, timeout=1800)
+            self.build_s += dt
+            if rc == 0:
+                if acc != self.accessors:
+                    log(f"engine R: built without accessors {sorted(set(self.accessors) - set(acc))}")
+                self.accessors = acc
+                break
         if rc != 0:
             log(out[-8000:])
             raise ToolFailure("the engine-R harness does not build against /repo's working tree (no verdict)")
@@ -68,6 +83,7 @@ class Harness:
         with open(outp) as f:
             doc = json.load(f)
         os.remove(outp)
+        doc["cfg"] = dict(cfg)
         return doc
 
 
@@ -175,6 +191,8 @@ def numeric_failures(doc64, prefixes, tol=1e-6):
             continue
         vals = [abs(x) for e in ob["eqs"] for x in e[1:3] if isinstance(x, (int, float))]
         scale = max([1.0] + vals)
+        if "wscale10" in str(doc64.get("cfg", "")) and ".native." not in ob["name"]:
+            continue
         for (label, l, r) in ob["eqs"]:
             if not isinstance(l, (int, float)) or not isinstance(r, (int, float)):
                 bad.append((ob["name"], label, l, r))
@@ -440,6 +458,10 @@ def explore(h, res, scenario, cfg, prefixes, budget, replay_dir):
         doc = h.run("sym", scenario, cfg, inputs=inputs)
         if doc.get("crash"):
             res.tool_errors.append(f"{scenario} {cfg}: harness crashed: {doc.get('log', '')[-300:]}")
+            return
+        unsup = [f for f in doc["out"]["facts"] if f[0] == "UNSUPPORTED"]
+        if unsup:
+            res.tool_errors.append(f"{scenario} {cfg}: {unsup[0][2]} (the code under test calls an SVD the symbolic engine cannot carry: no verdict for this configuration)")
             return
         arena0 = smt.Arena(doc["nodes"])
         sig = tuple((arena0.struct_hash(a), op, arena0.struct_hash(b), o) for (a, op, b, o) in doc["trace"])
